@@ -147,6 +147,23 @@ func c10Selector(c *fw.Ctx, rng *fw.RNG) {
 		return basicnode.Prototype.Any, nil
 	}}
 	budget := func() *traversal.Budget { return &traversal.Budget{NodeBudget: 20000, LinkBudget: 2000} }
+	c10WalkAll(c, sel, rootNode, cfg)
+	// by-value scalar roots through the transforming walk (bytes built by the Bytes prototype)
+	if rng.Chance(1, 6) {
+		bn, _ := build.Plain(basicnode.Prototype.Bytes, model.Bytes([]byte("abc")))
+		holder, _ := traversal.FocusedTransform(rootNode, datamodel.ParsePath("zz-bytes"), func(traversal.Progress, datamodel.Node) (datamodel.Node, error) { return bn, nil }, false)
+		if holder != nil {
+			c.Guard("C10:WalkTransforming", func() {
+				traversal.Progress{Cfg: cfg, Budget: budget()}.WalkTransforming(holder, sel, func(_ traversal.Progress, n datamodel.Node) (datamodel.Node, error) { return n, nil })
+			})
+		}
+	}
+}
+
+
+// c10WalkAll walks rootNode with sel through the three walk functions under the panic monitor.
+func c10WalkAll(c *fw.Ctx, sel selector.Selector, rootNode datamodel.Node, cfg *traversal.Config) {
+	budget := func() *traversal.Budget { return &traversal.Budget{NodeBudget: 20000, LinkBudget: 2000} }
 	visits := 0
 	c.Guard("C10:WalkAdv", func() {
 		traversal.Progress{Cfg: cfg, Budget: budget()}.WalkAdv(rootNode, sel, func(traversal.Progress, datamodel.Node, traversal.VisitReason) error { visits++; return nil })
@@ -171,16 +188,6 @@ func c10Selector(c *fw.Ctx, rng *fw.RNG) {
 	})
 	c.Count("walks", 3)
 	c.Count("walk_visits", int64(visits))
-	// by-value scalar roots through the transforming walk (bytes built by the Bytes prototype)
-	if rng.Chance(1, 6) {
-		bn, _ := build.Plain(basicnode.Prototype.Bytes, model.Bytes([]byte("abc")))
-		holder, _ := traversal.FocusedTransform(rootNode, datamodel.ParsePath("zz-bytes"), func(traversal.Progress, datamodel.Node) (datamodel.Node, error) { return bn, nil }, false)
-		if holder != nil {
-			c.Guard("C10:WalkTransforming", func() {
-				traversal.Progress{Cfg: cfg, Budget: budget()}.WalkTransforming(holder, sel, func(_ traversal.Progress, n datamodel.Node) (datamodel.Node, error) { return n, nil })
-			})
-		}
-	}
 }
 
 // c10GrowthProbe walks a three-edge recursive selector over a 16-deep one-child list under a
